@@ -133,7 +133,9 @@ class Renderer(object):
                 return "(%s::BI)" % a[0]
             if o == "pow":
                 if not self.D["pow_bi_exp"]:
-                    return "(%s ^ %s)" % (a[0], a[1])
+                    # libaldor: `^: (Integer, MachineInteger) -> Integer` returns its base when the base is 0 or 1, so
+                    # 0^0 = 0 there; AldorSem's bi.pow is the mathematical power (0^0 = 1): exponent 0 is spelled out
+                    return "(if (%s = 0@SI) then 1@BI else (%s ^ %s))" % (a[1], a[0], a[1])
                 return "(%s ^ (%s::BI))" % (a[0], a[1])
             return "(%s %s %s)" % (a[0], OPS[o], a[1])
         if e == "if":
